@@ -322,6 +322,9 @@ func (in *absInterp) get(fr *absFrame, v ssa.Value) aval {
 		if !ok {
 			pt := x.Type().Underlying().(*types.Pointer)
 			c = &acell{v: in.zero(pt.Elem()), name: x.Name()}
+			if tbl, ok := constTableOf(x); ok {
+				c.v = tbl
+			}
 			in.globals[x] = c
 		}
 		return aRef{root: c}
@@ -556,7 +559,7 @@ func (in *absInterp) Call(fn *ssa.Function, args []aval, bind []aval) aval {
 					fr.vals[x] = aInt(int64(string(str)[idx]))
 					break
 				}
-				key, ok := in.get(fr, x.Index).(aStr)
+				key, ok := absMapKey(in.get(fr, x.Index))
 				if !ok {
 					in.fail("map key %T", in.get(fr, x.Index))
 				}
@@ -578,7 +581,7 @@ func (in *absInterp) Call(fn *ssa.Function, args []aval, bind []aval) aval {
 					fr.vals[x] = deepCopy(elem)
 				}
 			case *ssa.MapUpdate:
-				key, ok := in.get(fr, x.Key).(aStr)
+				key, ok := absMapKey(in.get(fr, x.Key))
 				if !ok {
 					in.fail("map key %T", in.get(fr, x.Key))
 				}
@@ -859,6 +862,11 @@ func (in *absInterp) call(fr *absFrame, c *ssa.CallCommon) aval {
 		return in.Call(callee, args, bind)
 	}
 	if f, ok := in.get(fr, c.Value).(aFunc); ok {
+		if h, ok := in.hooks[ssaFuncName(f.fn)]; ok {
+			if v, handled := h(in, c, args); handled {
+				return v
+			}
+		}
 		return in.Call(f.fn, args, f.bind)
 	}
 	in.fail("%s: dynamic call through %T", fr.fn.Name(), in.get(fr, c.Value))
@@ -985,4 +993,122 @@ func stdPure(callee *ssa.Function, args []aval) (aval, bool) {
 		}
 	}
 	return nil, false
+}
+
+// absMapKey: string keys are themselves; integer keys are encoded (a map has one key type, so they cannot collide).
+func absMapKey(v aval) (aStr, bool) {
+	switch k := v.(type) {
+	case aStr:
+		return k, true
+	case aInt:
+		return aStr(fmt.Sprintf("\x00i%d", int64(k))), true
+	}
+	return "", false
+}
+
+// constTableOf: g is a package-level map whose initialiser is a literal with constant keys and constant or function
+// values, and which is written nowhere else: its contents, as the package initialiser builds them.
+func constTableOf(g *ssa.Global) (aval, bool) {
+	if g.Pkg == nil {
+		return nil, false
+	}
+	pt, ok := g.Type().Underlying().(*types.Pointer)
+	if !ok {
+		return nil, false
+	}
+	if _, isMap := pt.Elem().Underlying().(*types.Map); !isMap {
+		return nil, false
+	}
+	// written only by the package initialiser
+	for _, mem := range g.Pkg.Members {
+		fn, ok := mem.(*ssa.Function)
+		if !ok {
+			continue
+		}
+		fns := append([]*ssa.Function{fn}, fn.AnonFuncs...)
+		for _, f := range fns {
+			if f.Name() == "init" && f.Synthetic != "" {
+				continue
+			}
+			for _, b := range f.Blocks {
+				for _, ins := range b.Instrs {
+					if st, ok := ins.(*ssa.Store); ok && st.Addr == ssa.Value(g) {
+						return nil, false
+					}
+					if mu, ok := ins.(*ssa.MapUpdate); ok {
+						if ld, ok := mu.Map.(*ssa.UnOp); ok && ld.X == ssa.Value(g) {
+							return nil, false
+						}
+					}
+				}
+			}
+		}
+	}
+	init := g.Pkg.Func("init")
+	if init == nil {
+		return nil, false
+	}
+	var mk *ssa.MakeMap
+	for _, b := range init.Blocks {
+		for _, ins := range b.Instrs {
+			if st, ok := ins.(*ssa.Store); ok && st.Addr == ssa.Value(g) {
+				m, isMk := st.Val.(*ssa.MakeMap)
+				if !isMk || mk != nil {
+					return nil, false
+				}
+				mk = m
+			}
+		}
+	}
+	if mk == nil {
+		return nil, false
+	}
+	out := newAMap()
+	for _, ref := range *mk.Referrers() {
+		mu, ok := ref.(*ssa.MapUpdate)
+		if !ok {
+			continue
+		}
+		kc, ok := mu.Key.(*ssa.Const)
+		if !ok || kc.Value == nil {
+			return nil, false
+		}
+		var key aStr
+		switch kc.Value.Kind() {
+		case constant.String:
+			key = aStr(constant.StringVal(kc.Value))
+		case constant.Int:
+			n, _ := constant.Int64Val(kc.Value)
+			key, _ = absMapKey(aInt(n))
+		default:
+			return nil, false
+		}
+		var val aval
+		switch v := mu.Value.(type) {
+		case *ssa.Function:
+			val = aFunc{fn: v}
+		case *ssa.Const:
+			if v.Value == nil {
+				return nil, false
+			}
+			switch v.Value.Kind() {
+			case constant.String:
+				val = aStr(constant.StringVal(v.Value))
+			case constant.Int:
+				n, _ := constant.Int64Val(v.Value)
+				val = aInt(n)
+			case constant.Bool:
+				val = aBool(constant.BoolVal(v.Value))
+			default:
+				return nil, false
+			}
+		default:
+			return nil, false
+		}
+		if _, had := out.m[string(key)]; !had {
+			*out.order = append(*out.order, string(key))
+		}
+		out.m[string(key)] = val
+	}
+	return out, true
 }
